@@ -132,6 +132,7 @@ def run(idx: ProgramIndex, rep: Report, tier: str):
 
     encoded_consistently(idx, rep)
     predictive_assembly(idx, rep)
+    symmetric_mixing(idx, rep)
 
 
 # ---- C14-6: q(u) is what the parameters encode, for every reader and in every mode ---------------------------------------
@@ -315,3 +316,70 @@ def predictive_assembly(idx: ProgramIndex, rep: Report):
                 probs.append("covariance (%s) is `%s`, expected `%s`" % (cond, c.show() if c is not None else "not of matrix-affine shape", wc.show()))
     rep.add("C14-7", "%s:VariationalStrategy.forward" % V.module.name, fi.where, n >= 2 and not probs,
             "on all %d returning paths: mean = KZX^T L^-T m + MX; covariance = KXX + KZX^T L^-T (S - P) L^-1 KZX" % n if n >= 2 and not probs else "; ".join(sorted(set(probs))[:3]) or "no returning path constructs the distribution", {"paths": n})
+
+
+# ---- C14-8: mixing weights enter the covariance as w w^T -----------------------------------------------------------------
+def symmetric_mixing(idx: ProgramIndex, rep: Report):
+    """The multitask wrappers mix latent functions with coefficients w (a task mask, the LMC coefficients): the mean is
+    sum_l w_l m_l, so the covariance is sum_l w_l w_l' C_l - the coefficients enter it as the *outer product* w w^T
+    (RootLinearOperator(w[..., None]) = w w^T), with the same w and over the same dimension as in the mean.  A covariance multiplied
+    by w alone is neither symmetric nor the covariance of the mixed function."""
+    from ..symbolic import inline, walk_paths
+    rep.rule("C14-8", "multitask wrappers weight the covariance by w w^T (Root of the same coefficients, summed over the same dimension) wherever the mean is weighted by w")
+    n = 0
+    for cname in ("IndependentMultitaskVariationalStrategy", "LMCVariationalStrategy"):
+        C = idx.find_class(cname)
+        fi = idx.method(C, "__call__", own=True)
+        seen = set()
+        for path, seq in walk_paths(fi):
+            for st, env in seq:
+                if not (isinstance(st, ast.Return) and st.value is not None):
+                    continue
+                r = inline(st.value, env)
+                if not (isinstance(r, ast.Call) and (chain(r.func) or "").split(".")[-1] in ("MultivariateNormal", "MultitaskMultivariateNormal") and len(r.args) >= 2):
+                    continue
+                me, ce = r.args[0], r.args[1]
+                # elementwise products with a latent covariance
+                prods = []
+                for x in ast.walk(ce):
+                    pair = None
+                    if isinstance(x, ast.BinOp) and isinstance(x.op, ast.Mult):
+                        pair = (x.left, x.right)
+                    elif isinstance(x, ast.Call) and isinstance(x.func, ast.Attribute) and x.func.attr in ("mul", "mul_") and len(x.args) == 1:
+                        pair = (x.func.value, x.args[0])
+                    elif isinstance(x, ast.Call) and (chain(x.func) or "").split(".")[-1] == "KroneckerProductLinearOperator" and len(x.args) == 2:
+                        pair = (x.args[0], x.args[1])
+                    if pair is None:
+                        continue
+                    for a_, b_ in (pair, pair[::-1]):
+                        if isinstance(a_, ast.Attribute) and a_.attr in ("lazy_covariance_matrix", "covariance_matrix") or (isinstance(a_, ast.Call) and "lazy_covariance_matrix" in src(a_)[:200] and not "Root" in src(a_)[:40]):
+                            prods.append((x, b_))
+                            break
+                for x, w in prods:
+                    key = (st.lineno, ast.dump(w)[:200])
+                    if key in seen:
+                        continue
+                    seen.add(key)
+                    n += 1
+                    inst = "%s:%s.__call__[covariance weight `%s`]" % (C.module.name, cname, " ".join(src(w).split())[:50])
+                    where = "%s:%d" % (fi.module.relpath, st.lineno)
+                    is_root = isinstance(w, ast.Call) and (chain(w.func) or "").split(".")[-1] == "RootLinearOperator" and w.args
+                    is_scalar = isinstance(w, ast.Constant)
+                    if is_scalar:
+                        rep.add("C14-8", inst, where, True, "scalar factor", {})
+                        continue
+                    if not is_root:
+                        rep.add("C14-8", inst, where, False, "the latent covariance is multiplied by `%s`, not by the outer product of the coefficients (RootLinearOperator(w[..., None]) = w w^T): the result is not symmetric and is not the covariance of the mixed function" % " ".join(src(w).split())[:60], {})
+                        continue
+                    # the coefficient vector inside Root(...) must be the one that weights the mean
+                    wv = w.args[0]
+                    def new_axis(sub) -> bool:
+                        sl = sub.slice
+                        return isinstance(sl, ast.Tuple) and len(sl.elts) == 2 and isinstance(sl.elts[0], ast.Constant) and sl.elts[0].value is Ellipsis and isinstance(sl.elts[1], ast.Constant) and sl.elts[1].value is None
+                    # only the trailing new axis of Root(w[..., None]) / Root(w.unsqueeze(-1)) is looked through
+                    while (isinstance(wv, ast.Subscript) and new_axis(wv)) or (isinstance(wv, ast.Call) and isinstance(wv.func, ast.Attribute) and wv.func.attr in ("unsqueeze",)):
+                        wv = wv.value if isinstance(wv, ast.Subscript) else wv.func.value
+                    in_mean = ast.dump(wv) in ast.dump(me)
+                    rep.add("C14-8", inst, where, in_mean, "covariance weighted by w w^T with the coefficients that weight the mean" if in_mean else
+                            "the covariance is weighted by the outer product of `%s`, which is not what weights the mean" % " ".join(src(wv).split())[:50], {})
+    rep.floor("C14-8", "covariance mixing sites", n, 3)
